@@ -55,6 +55,9 @@ type scope struct {
 	uses    map[string]bool   // names used by the scope's own statements (not inside nested blocks) plus parameters
 	binding map[string]*class // name -> storage class
 	nested  []*scope          // blocks written directly in this scope (any depth of statements, not inside other blocks)
+	// implicitIt: a block written without a parameter list that uses the name it: the language gives it the
+	// implicit parameter it (params is {"it"} for the model, the printer writes no parameter list)
+	implicitIt bool
 }
 
 // class is one variable: the set of (scope, name) pairs that denote the same storage.
@@ -93,6 +96,7 @@ type gen struct {
 	budget   int // remaining statements
 	features map[string]bool
 	defined  map[string]bool // names assigned so far in generation order (a heuristic to keep most reads initialised)
+	useIt    bool            // this program has an outer variable called it and blocks with the implicit parameter it
 }
 
 // readable picks a name to read: mostly one that has been assigned somewhere before.
@@ -173,7 +177,11 @@ func (g *gen) newBlock(c *ctx, name string, allowReturn bool) *expr {
 	g.nscopes++
 	sc := &scope{parent: c.sc, id: g.nscopes}
 	pnames := []string{"x", "y", "p", "q", "z"}
-	for i := 0; i < arity[name]; i++ {
+	if g.useIt && arity[name] == 1 && g.nscopes%2 == 0 {
+		sc.params, sc.implicitIt = []string{"it"}, true
+		g.features["implicit-it-parameter"] = true
+	}
+	for i := 0; i < arity[name] && !sc.implicitIt; i++ {
 		for {
 			p := g.pick(pnames)
 			dup := false
@@ -201,6 +209,10 @@ func (g *gen) newBlock(c *ctx, name string, allowReturn bool) *expr {
 		sc.body = append(sc.body[:at:at], append([]*stmt{ret}, sc.body[at:]...)...)
 	}
 	// the value of a block is its last statement: always an integer expression
+	if sc.implicitIt { // (which uses it, so that the language really gives the block the implicit parameter)
+		sc.body = append(sc.body, &stmt{kind: "expr", e: &expr{kind: "bin", op: "+", kids: []*expr{{kind: "var", name: "it"}, g.intExpr(bc, 1)}}})
+		return &expr{kind: "block", sc: sc}
+	}
 	sc.body = append(sc.body, &stmt{kind: "expr", e: g.intExpr(bc, 1)})
 	return &expr{kind: "block", sc: sc}
 }
@@ -365,6 +377,7 @@ func (g *gen) stmt(c *ctx) *stmt {
 type printer struct {
 	sb      strings.Builder
 	forced  bool // every block reads the dummy variable of its function
+	liveIfs bool // every if condition is written (cond) and Suneido.vtrue: no branch can be removed at compile time, everything else stays constant
 	noconst bool // literals are written (N + Suneido.vzero) and function variables are assigned twice: nothing is a compile-time constant
 }
 
@@ -395,7 +408,7 @@ func (p *printer) expr(e *expr) {
 		p.sb.WriteString(")")
 	case "block":
 		p.sb.WriteString("{")
-		if len(e.sc.params) > 0 {
+		if len(e.sc.params) > 0 && !e.sc.implicitIt {
 			p.sb.WriteString("|" + strings.Join(e.sc.params, ", ") + "|")
 		}
 		p.sb.WriteString("\n")
@@ -441,7 +454,13 @@ func (p *printer) stmt(s *stmt) {
 		p.expr(s.e)
 	case "if":
 		p.sb.WriteString("if ")
-		p.expr(s.e)
+		if p.liveIfs {
+			p.sb.WriteString("(")
+			p.expr(s.e)
+			p.sb.WriteString(" and Suneido.vtrue)")
+		} else {
+			p.expr(s.e)
+		}
 		p.sb.WriteString("\n{\n")
 		p.stmts(s.body)
 		p.sb.WriteString("}")
@@ -501,8 +520,10 @@ return 0
 
 func source(root *scope, forced bool) string { return source2(root, forced, false) }
 
-func source2(root *scope, forced, noconst bool) string {
-	p := &printer{forced: forced, noconst: noconst}
+func source2(root *scope, forced, noconst bool) string { return source3(root, forced, noconst, false) }
+
+func source3(root *scope, forced, noconst, liveIfs bool) string {
+	p := &printer{forced: forced, noconst: noconst, liveIfs: liveIfs}
 	p.sb.WriteString("function () {\n")
 	if forced {
 		p.sb.WriteString("zq = 0\n")
@@ -1014,7 +1035,7 @@ func AsStrOrDisplay(v Value) string {
 }
 
 func setup() {
-	resetLog = compile.Constant("function () { Suneido.vlog = Object(); Suneido.vzero = 0 }")
+	resetLog = compile.Constant("function () { Suneido.vlog = Object(); Suneido.vzero = 0; Suneido.vtrue = true }")
 	getLog = compile.Constant("function () { return Suneido.vlog }")
 }
 
@@ -1028,7 +1049,15 @@ func generate(r *rand.Rand) (*scope, map[string]bool) {
 			g.defined[v] = true
 		}
 	}
+	// a third of the programs (chosen without drawing from r): the outermost function has a variable called it,
+	// assigned a literal once, and blocks of arity 1 may be written with the implicit parameter it, which hides it
+	if g.useIt = (g.budget+len(root.body))%3 == 0; g.useIt {
+		root.body = append(root.body, &stmt{kind: "assign", name: "it", e: &expr{kind: "lit", n: 1 + g.budget%9}})
+	}
 	root.body = append(root.body, g.stmts(c, 3+r.IntN(8))...)
+	if g.useIt {
+		root.body = append(root.body, &stmt{kind: "log", e: &expr{kind: "var", name: "it"}})
+	}
 	root.body = append(root.body, &stmt{kind: "return", e: g.intExpr(c, 1)})
 	return root, g.features
 }
@@ -1119,9 +1148,13 @@ func TestVerifC29(t *testing.T) {
 				cls := "C29/differs-from-documented-model/" + variant + "/" + what
 				detail := map[string]any{"source": s, "model": want.String(), "real": got.String()}
 				// root cause probe: the same program with no compile-time constant variables (nothing to propagate, no branch removed)
-				if nc, cerr2 := real(source2(root, forced, true)); cerr2 == "" && nc == want {
+				if li, cerr3 := real(source3(root, forced, false, true)); cerr3 == "" && li == want {
+					// the recorded defect: a branch removed at compile time took the only use of a name in its scope with it
+					cls = "C29/scoping-changed-by-dead-branch-removal/" + variant
+					detail["note"] = "the program agrees with the model when no if branch can be removed at compile time (conditions written (cond) and Suneido.vtrue); constants are still propagated"
+				} else if nc, cerr2 := real(source2(root, forced, true)); cerr2 == "" && nc == want {
 					cls = "C29/scoping-changed-by-constant-propagation/" + variant
-					detail["note"] = "the program agrees with the model when nothing in it is a compile-time constant (literals written (N + Suneido.vzero), function variables assigned twice)"
+					detail["note"] = "the program agrees with the model when nothing in it is a compile-time constant (literals written (N + Suneido.vzero), function variables assigned twice), but not when only the if branches are kept alive"
 				}
 				rep.Violate(cls, s, detail)
 			}
